@@ -528,6 +528,16 @@ def run(ctx: Any, prog: Program) -> None:
                       f'_handle_string reads self.{n.attr}, which is also written by {sorted(w - {"__init__", "_handle_string"}) or sorted(w)} and is not set on entry to the handler: '
                       'what a quoted string decodes to then depends on the text in front of it', func='Tokenizer._handle_string', text=f'self.{n.attr} is configuration or initialised by the handler')
 
+    # T9 (decoded text is write-only): escape_text encodes character by character without context, so the decoder's decision for a character
+    # may not depend on the text decoded so far.  The list the handler appends to (and joins for the token) is therefore only ever appended
+    # to / joined / cleared - never measured, indexed or searched inside the tests of the handler.
+    accs9 = {c.func.value.id for c in walk_no_nested(hs9) if isinstance(c, ast.Call) and isinstance(c.func, ast.Attribute) and c.func.attr == 'append' and isinstance(c.func.value, ast.Name)}
+    accs9 &= {a.id for c in walk_no_nested(hs9) if isinstance(c, ast.Call) and isinstance(c.func, ast.Attribute) and c.func.attr == 'join' for a in c.args if isinstance(a, ast.Name)}
+    ctx.shape('C02.T9', len(accs9) >= 1, tk, hs9, 'the list of decoded characters (appended to, joined for the token) was not found in _handle_string', func='Tokenizer._handle_string', text='decoded text is write-only')
+    for acc in sorted(accs9):
+        reads = [x for x in walk_no_nested(hs9) if isinstance(x, ast.Name) and x.id == acc and isinstance(x.ctx, ast.Load) and id(x) in in_test9]
+        ctx.check('C02.T9', not reads, tk, reads[0] if reads else hs9, f'_handle_string decides on `{acc}`, the text decoded so far (line {reads[0].lineno if reads else 0}): escape_text writes each character without looking at its '
+                  'neighbours, so a decoder whose treatment of `\\` depends on what precedes it reads some escaped strings back differently', func='Tokenizer._handle_string', text=f'`{acc}` is only appended to and joined')
     # ---- T10: the handler refuses nothing but the end of the input ------------------------------------------------------------------------------
     # every character can stand inside a quoted string (escape_text decides which ones are written raw), so the string handler - and any private
     # helper it calls - raises only where it has just seen that the input ended (`<char> is None`).  A `raise` under any other condition refuses
@@ -769,6 +779,7 @@ def run(ctx: Any, prog: Program) -> None:
 
 
 MUTANTS = [
+    {'id': 'escape_decoding_depends_on_prefix', 'file': 'tokenizer.py', 'find': "            if next_char == '\\\\' and self.allow_escapes:\n                # Escape text\n                escape = self._next_char()", 'replace': "            if next_char == '\\\\' and self.allow_escapes and value_chars[-1:] != [':']:\n                # Escape text\n                escape = self._next_char()", 'expect': 'C02.T9', 'refuse_ok': True, 'note': 'round 12'},
     {'id': 'string_text_normalised_before_return', 'file': 'tokenizer.py', 'find': "            if next_char == '\"':\n                return Token.STRING, ''.join(value_chars)", 'replace': "            if next_char == '\"':\n                return Token.STRING, _compose(''.join(value_chars))", 'extra': [{'file': 'tokenizer.py', 'find': "class BaseTokenizer(abc.ABC):", 'replace': "def _compose(text: str) -> str:\n    if text.isascii():\n        return text\n    import unicodedata\n    return unicodedata.normalize('NFC', text)\n\n\nclass BaseTokenizer(abc.ABC):"}], 'expect': 'C02.T4'},
     {'id': 'long_strings_escaped_by_replace_passes', 'file': 'tokenizer.py', 'find': "    return (ESCAPE_MULTILINE_RE if multiline else ESCAPE_RE).sub(_escape_matcher, text)", 'replace': "    if len(text) < 4096:\n        return (ESCAPE_MULTILINE_RE if multiline else ESCAPE_RE).sub(_escape_matcher, text)\n    unescaped = '?/\\n' if multiline else '?/'\n    for char, escape in ESCAPES_INV.items():\n        if char not in unescaped and char in text:\n            text = text.replace(char, escape)\n    return text", 'expect': 'C02.T2'},
     {'id': 'multiline_pair_wrong_replacement', 'file': 'tokenizer.py', 'find': "ESCAPE_MULTILINE_RE = re.compile('|'.join(\n    re.escape(c) for c in ESCAPES_INV\n    if c not in '?/\\n'\n))\n", 'replace': "ESCAPES_INV_MULTILINE = {**ESCAPES_INV, '\\\\\\n': '\\\\\\\\n'}\ndel ESCAPES_INV_MULTILINE['\\n']\nESCAPE_MULTILINE_RE = re.compile('|'.join(\n    re.escape(c) for c in sorted(ESCAPES_INV_MULTILINE, key=len, reverse=True)\n    if c not in '?/'\n))\n", 'extra': [{'file': 'tokenizer.py', 'find': "def escape_text(text: str, multiline: bool=False) -> str:", 'replace': "def _escape_matcher_multiline(match: re.Match[str]) -> str:\n    return ESCAPES_INV_MULTILINE[match.group()]\n\n\ndef escape_text(text: str, multiline: bool=False) -> str:"}, {'file': 'tokenizer.py', 'find': "    return (ESCAPE_MULTILINE_RE if multiline else ESCAPE_RE).sub(_escape_matcher, text)", 'replace': "    if multiline:\n        return ESCAPE_MULTILINE_RE.sub(_escape_matcher_multiline, text)\n    return ESCAPE_RE.sub(_escape_matcher, text)"}], 'expect': 'C02.T2'},
